@@ -498,10 +498,36 @@ func TestSessions(t *testing.T) {
 		if c.V1 {
 			shape = "serial"
 		}
-		nonString := false
+		nonString, reused := false, false
 		for i := 0; i < nCalls; i++ {
 			st := rapid.SampledFrom(c.Steps).Draw(rt, "callStep")
 			cl := Call{Run: fmt.Sprintf("run-%d", i), Step: st.ID}
+			switch shape {
+			case "serial":
+				cl.Group = i
+			case "mixed":
+				cl.Group = i / 2
+			}
+			// run IDs are the caller's: a later call may reuse the ID of a run that has already returned (calls of an
+			// earlier group are over before this one starts) - whatever that run ended in, for whatever step
+			if cl.Group > 0 && rapid.IntRange(0, 3).Draw(rt, "reuseRunID") == 0 {
+				var earlier []string
+				inGroup := map[string]bool{}
+				for _, prev := range c.Calls {
+					if prev.Group == cl.Group {
+						inGroup[prev.Run] = true // two pending calls must not share an ID
+					}
+				}
+				for _, prev := range c.Calls {
+					if prev.Group < cl.Group && !inGroup[prev.Run] {
+						earlier = append(earlier, prev.Run)
+					}
+				}
+				if len(earlier) > 0 {
+					cl.Run = rapid.SampledFrom(earlier).Draw(rt, "reusedRun")
+					reused = true
+				}
+			}
 			if mv, ok := gen.ValueFor(rt, st.Input, nil, 2); ok && rapid.IntRange(0, 5).Draw(rt, "validInput") != 0 {
 				cl.Input = withTag(gen.Render(rt, st.Input, nil, mv).V, cl.Run)
 			} else {
@@ -530,6 +556,9 @@ func TestSessions(t *testing.T) {
 		classes := []string{"shape:" + shape, fmt.Sprintf("v1=%v", c.V1), fmt.Sprintf("s2c_buffered=%v", c.S2C.Buffered)}
 		if stats["overlapping_calls"] > 0 {
 			classes = append(classes, "calls_overlapped")
+		}
+		if reused {
+			classes = append(classes, "run_id_reused_after_completion")
 		}
 		if stats["mid_message_reads"] > 0 {
 			classes = append(classes, "read_ended_inside_message")
